@@ -17,12 +17,13 @@ MODES = {
     "nested": "TokenizerTrace",
     "keyval": "KeyvalTrace",
     "dist": "KeyvalTrace",
+    "params": "KeyvalTrace",
     "glob": "GlobTrace",
     "vars": "VarResolveTrace",
     "table": "TableTrace",
 }
 RESET_TO_MODE = {"numbers": "numbers", "tok": "tok", "nested": "nested", "keyval": "keyval", "keyval-chain": "keyval",
-                 "dist": "dist", "glob": "glob", "vars": "vars", "table": "table", "table-shape": "table",
+                 "dist": "dist", "params": "params", "glob": "glob", "vars": "vars", "table": "table", "table-shape": "table",
                  "table-history": "table"}
 
 
@@ -37,6 +38,7 @@ def _args(tier):
         "vars": ["--items", 2, "--nvars", 2 if q else 3, "--rand", 600 if q else 10000],
         "table": ["--dim", 4 if q else 6, "--rand", 200 if q else 3000],
         "dist": ["--rand", 40 if q else 600],
+        "params": ["--rand", 150 if q else 3000],
     }
 
 
@@ -116,6 +118,8 @@ def _corrupt(lines, rnd):
             ev["s"]["nrow"] += 1; changed = True
         elif e == "TabWriteRead" and ev.get("r") == "ok" and ev["back"]["cells"] and ev["back"]["cells"][0]:
             ev["back"]["cells"][0][0] = ev["back"]["cells"][0][0] + [122]; changed = True
+        elif e == "ParamWrite" and ev.get("expect"):
+            ev["expect"][0][0] = ev["expect"][0][0] + [122]; changed = True
         elif e == "DistRT" and ev.get("cats2"):
             ev["cats2"][0] += 1000; changed = True
         if changed:
@@ -207,7 +211,7 @@ def run(tier, seed):
     exe = vc.build_driver("drv_text", link_lib=True)
     args = _args(tier)
     corrupt_results = {}
-    order = ["tok", "keyval", "glob", "numbers", "nested", "vars", "table", "dist"]
+    order = ["tok", "keyval", "glob", "numbers", "nested", "vars", "table", "dist", "params"]
     with ThreadPoolExecutor(max_workers=3) as ex:
         mode_results = list(ex.map(lambda md: _run_mode(ck, wd, exe, md, args[md], rnd, corrupt_results), order))
     per_mode = {}
